@@ -24,7 +24,7 @@ ASSUME GenWhat = "rt" =>
               PrintT(<<"RT", ToJson([p |-> p, v |-> vv, bytes |-> SerEnc(p, vv)])>>)
          /\ GenPart = 0 => \A r \in Refused : PrintT(<<"WR", ToJson([p |-> <<r[1]>>, v |-> <<r[2]>>])>>)
 ASSUME GenWhat = "tot" =>
-         \A p \in Mine : \A s \in Strs(L, Alphabet) :
+         \A p \in Mine : \A s \in TotalStrs(p) :
               PrintT(<<"TOT", ToJson([p |-> p, s |-> s, w |-> OutJ(Outcome(Run(p, s)))])>>)
 
 GInit == prog = 0 /\ vals = 0 /\ src = 0 /\ pc = 0 /\ st = 0
